@@ -126,6 +126,15 @@ def make_inputs(task, variant, rng, d):
     else:
         p = d / "in.rtdc"
         gd.write_model(p, model(n))
+        if variant in (0, 3):
+            # the input is itself the product of an earlier dclab-compress run (its logs and
+            # features are stored compressed, so the copy takes the whole-object route)
+            import dclab.cli as cli
+            p0 = d / "in_uncompressed.rtdc"
+            p.rename(p0)
+            cli.compress(path_in=p0, path_out=p)
+            p0.unlink()
+            info["precompressed"] = True
         info["inputs"] = [str(p)]
         info["outputs"] = [str(d / "out.rtdc")]
     return info
